@@ -317,6 +317,22 @@ func genSession14(c *Chooser) Session {
 	} else if c.Chance(1, 40) {
 		b = nil
 	}
+	if b != nil && (b.K == 'o' || b.K == 'a') && (iv.yaml && c.Chance(1, 6) || c.Chance(1, 25)) {
+		// the second document gains a value (or a key) that some carrier treats
+		// specially: characters YAML reads as line breaks or rejects, numbers
+		// between 2^63 and 2^64 and just beyond, a key longer than 1 KiB
+		b = b.clone()
+		hostile := []*Val{vs("next\u0085line"), vs("del\u007f"), vs("c1\u009f ok"), vs("\ufffe"), vs("sep\u2028"), vn(9.3e18), vn(18446744073709551615), vn(1e19), vn(-9.3e18), vs("bom\ufeff")}
+		h := hostile[c.Int(len(hostile))]
+		switch {
+		case b.K == 'a':
+			b.Elems = append(b.Elems, h)
+		case c.Chance(1, 8):
+			b.set(strings.Repeat("long-key-", 130), h)
+		default:
+			b.set("note", h)
+		}
+	}
 	if iv.twoKeys {
 		a, b = withNS(a), withNS(b)
 	}
